@@ -25,6 +25,10 @@ type c13Input struct {
 	Class    string `json:"class"`         // input class (for signatures)
 	BodyDesc string `json:"bodydesc"`      // human description
 	Dyn      string `json:"dyn,omitempty"` // body built after the state is reached, sealed under the exchange's real key
+	// Framing (verified state only): how the peer cuts the request into session frames — "" one frame per 1024 bytes;
+	// "empty-first" / "empty-between" / "empty-last": a well-formed frame without data before, inside or after the
+	// request; "bytes": one frame per byte of the first 40 bytes
+	Framing string `json:"framing,omitempty"`
 }
 
 var c13States = []string{"fresh", "setup-M1", "setup-M3", "verify-M1", "verified"}
@@ -334,7 +338,29 @@ func c13Exec(x *c13Ctx, in c13Input) {
 		return
 	}
 	defer k.Close()
-	m, _, err := k.Do(in.Method, in.Path, in.CType, in.Body)
+	var m *refctl.Msg
+	if in.Framing != "" && in.State == "verified" {
+		req := refctl.BuildRequest(in.Method, in.Path, in.CType, in.Body)
+		var pieces [][]byte
+		switch in.Framing {
+		case "empty-first":
+			pieces = [][]byte{{}, req}
+		case "empty-between":
+			pieces = [][]byte{req[:10], {}, {}, req[10:]}
+		case "empty-last":
+			pieces = [][]byte{req, {}}
+		default:
+			for i := 0; i < 40 && i < len(req)-1; i++ {
+				pieces = append(pieces, req[i:i+1])
+			}
+			pieces = append(pieces, req[len(pieces):])
+		}
+		if err = k.SendPieces(pieces...); err == nil {
+			m, _, err = k.Await()
+		}
+	} else {
+		m, _, err = k.Do(in.Method, in.Path, in.CType, in.Body)
+	}
 	time.Sleep(200 * time.Microsecond)
 	if p := world.PanicsFor(k.Local); len(p) > 0 {
 		site := world.PanicSite(k.Local)
@@ -490,6 +516,11 @@ func c13Inputs(b *bed, thorough bool) []c13Input {
 			out = append(out, c13Input{State: st, Method: "POST", Path: "/pair-verify", CType: refctl.CTPairing, Body: refctl.VerifyM1(lowOrder[n]), Class: "M1:public-key-" + n})
 		}
 	}
+	// a verified peer that cuts its requests into session frames in unusual but well-formed ways
+	for _, fr := range []string{"empty-first", "empty-between", "empty-last", "bytes"} {
+		out = append(out, c13Input{State: "verified", Method: "GET", Path: "/accessories", Framing: fr, Class: "framing:" + fr})
+		out = append(out, c13Input{State: "verified", Method: "PUT", Path: "/characteristics", CType: refctl.CTJSON, Body: []byte(fmt.Sprintf(`{"characteristics":[{"aid":%d,"iid":%d,"value":33}]}`, aid, iid)), Framing: fr, Class: "framing:" + fr})
+	}
 	// encrypted items far longer than a session frame (a TLV value may have any length)
 	for _, n := range []int{1024, 1025, 1040, 1041, 2000, 70000} {
 		for _, st := range []string{"fresh", "verify-M1", "setup-M3", "verified"} {
@@ -602,7 +633,7 @@ func init() {
 	fw.Register(&fw.Check{
 		ID:    "C13",
 		Level: "exploration",
-		Rule:  "for every protocol state reachable by a prefix of a correct exchange (fresh connection; pair-setup after M1 and after a right-code M3; pair-verify after M1; verified encrypted session) × every endpoint (/pair-setup, /pair-verify, /pairings, /characteristics GET+PUT, /accessories, /resource, /identify, unknown paths and methods) an input alphabet derived mechanically from the correct next messages: empty body, every prefix, every item removed / duplicated / re-tagged, item lengths 0,1,255,256,300, encrypted payloads of length 0..17 and with each of the 16 tag bytes flipped, key-exchange / finish messages CORRECTLY sealed under the running exchange's key but with malformed signed sub-TLVs (key and signature lengths 0/31/33/63/65, missing items, names of stored entities with a short or no key), method and state bytes 0..255, garbage; JSON bodies with wrong types per field, 1e999, -0, 2^64, nesting depth 10000 / 100000, duplicate keys, 1 MiB string, 5000 entries, invalid UTF-8; malformed id queries. Real transport over TCP. Oracle per input: no handler panic (net/http's panic log, attributed by remote address), a well-formed HTTP response (any status) instead of a dropped connection, then a correct pair-verify on the SAME connection after at most one rejected start (or, on a verified connection, a further encrypted request), and a correct handshake + read + write on a NEW connection. distinct_nontrivial = distinct (endpoint, state, status) classes Values for float and bool targets: \"NaN\", \"Inf\", \"1e999\", 1e999, \"0x10\", null, arrays, objects, ±1e308, 5e-324 (a verified observer is subscribed to the targets, so changes run the notification path); encrypted items of 1024…70000 bytes in pair-verify finish and pair-setup key-exchange messages; pair-verify start requests whose public key is 0, 1, p−1, p, p+1, 2^256−1 or a point of order 8.",
+		Rule:  "for every protocol state reachable by a prefix of a correct exchange (fresh connection; pair-setup after M1 and after a right-code M3; pair-verify after M1; verified encrypted session) × every endpoint (/pair-setup, /pair-verify, /pairings, /characteristics GET+PUT, /accessories, /resource, /identify, unknown paths and methods) an input alphabet derived mechanically from the correct next messages: empty body, every prefix, every item removed / duplicated / re-tagged, item lengths 0,1,255,256,300, encrypted payloads of length 0..17 and with each of the 16 tag bytes flipped, key-exchange / finish messages CORRECTLY sealed under the running exchange's key but with malformed signed sub-TLVs (key and signature lengths 0/31/33/63/65, missing items, names of stored entities with a short or no key), method and state bytes 0..255, garbage; JSON bodies with wrong types per field, 1e999, -0, 2^64, nesting depth 10000 / 100000, duplicate keys, 1 MiB string, 5000 entries, invalid UTF-8; malformed id queries. Real transport over TCP. Oracle per input: no handler panic (net/http's panic log, attributed by remote address), a well-formed HTTP response (any status) instead of a dropped connection, then a correct pair-verify on the SAME connection after at most one rejected start (or, on a verified connection, a further encrypted request), and a correct handshake + read + write on a NEW connection. distinct_nontrivial = distinct (endpoint, state, status) classes Values for float and bool targets: \"NaN\", \"Inf\", \"1e999\", 1e999, \"0x10\", null, arrays, objects, ±1e308, 5e-324 (a verified observer is subscribed to the targets, so changes run the notification path); encrypted items of 1024…70000 bytes in pair-verify finish and pair-setup key-exchange messages; pair-verify start requests whose public key is 0, 1, p−1, p, p+1, 2^256−1 or a point of order 8; on a verified connection, requests cut into session frames in unusual well-formed ways (a frame without data before, inside or after the request; one frame per byte).",
 		Run:   c13Run,
 		Replay: func(c *fw.Ctx, raw json.RawMessage) {
 			var in c13Input
